@@ -4,6 +4,7 @@ package c13
 import (
 	"bytes"
 	"fmt"
+	ethcrypto "github.com/ethereum/go-ethereum/crypto"
 	"sort"
 	"time"
 
@@ -25,13 +26,18 @@ type Spec struct {
 	Collide bool // offer colliding bridger / external addresses and out-of-bounds stakes
 	Rewards bool // offer redelegate / withdraw-reward / edit-bridger
 	Objects bool // batches and outgoing bridge calls as objects to be confirmed, a late-joining oracle (o3), confirms by o1 only
-	Restart bool // offer a restart of the module from its exported genesis (real ExportGenesis / InitGenesis)
-	Focus   bool // narrowed alphabet (o2's life cycle only: blocks, removal, top-up, unbond; o1 confirms) for deeper histories
-	w       *world.World
-	os      []scen.Oracle // o1 (big stake), o2 (to be removed), o3 (approved later)
+	// SecondChain: oracle o1 is also approved and bonded on this other bridge chain (same account, same keys); its
+	// stake there is held by its own delegate address, derived from (oracle, module)
+	SecondChain string
+	Restart     bool // offer a restart of the module from its exported genesis (real ExportGenesis / InitGenesis)
+	Focus       bool // narrowed alphabet (o2's life cycle only: blocks, removal, top-up, unbond; o1 confirms) for deeper histories
+	w           *world.World
+	os          []scen.Oracle // o1 (big stake), o2 (to be removed), o3 (approved later)
 }
 
-func (s *Spec) Name() string { return fmt.Sprintf("c13/%s/collide=%v/rewards=%v/focus=%v/objects=%v/restart=%v", s.Chain, s.Collide, s.Rewards, s.Focus, s.Objects, s.Restart) }
+func (s *Spec) Name() string {
+	return fmt.Sprintf("c13/%s/collide=%v/rewards=%v/focus=%v/objects=%v/restart=%v/second=%s", s.Chain, s.Collide, s.Rewards, s.Focus, s.Objects, s.Restart, s.SecondChain)
+}
 
 // Model: what each oracle transferred net of penalties paid, and how often it was paid out.
 type Model struct {
@@ -94,6 +100,13 @@ func (s *Spec) Init() *explore.State {
 	w.MustDeliver(ctx, scen.BondMsg(s.Chain, s.os[0], w.Vals[0].ValAddr(), world.FX(40000)))
 	w.MustDeliver(ctx, scen.BondMsg(s.Chain, s.os[1], w.Vals[0].ValAddr(), world.FX(10000)))
 	scen.SetParams(w, ctx, s.Chain, func(p *cctypes.Params) { p.SignedWindow = window })
+	if s.SecondChain != "" {
+		o1b := scen.NewOracle(s.SecondChain, "o1")
+		if r := scen.Approve(w, ctx, s.SecondChain, []scen.Oracle{o1b}); !r.OK() {
+			panic(r.String())
+		}
+		w.MustDeliver(ctx, scen.BondMsg(s.SecondChain, o1b, w.Vals[0].ValAddr(), world.FX(20000)))
+	}
 	if s.Objects {
 		scen.Observe(w, ctx, s.Chain, s.os[:2], scen.BridgeTokenClaim(s.Chain, 1, 100, scen.ExtAddr(s.Chain, s.Chain+"-fx-token"), "Function X", "FX", 18, ""))
 	}
@@ -102,6 +115,12 @@ func (s *Spec) Init() *explore.State {
 }
 
 func sig(x string) string { return "C13/" + x }
+
+// delegateAddress is the account that holds an oracle's stake: the last 20 bytes of keccak256(oracle address | module
+// name) - written out here, independent of the code under test.
+func delegateAddress(oracle sdk.AccAddress, module string) sdk.AccAddress {
+	return sdk.AccAddress(ethcrypto.Keccak256(append(append([]byte(nil), oracle...), []byte(module)...))[12:])
+}
 
 func (s *Spec) idx(name string) scen.Oracle {
 	for _, o := range s.os {
@@ -284,7 +303,7 @@ func (s *Spec) unbondOp(o scen.Oracle) explore.Op {
 		k := scen.Keeper(s.w, s.Chain)
 		m := c.Model.(*Model)
 		pre, _ := k.GetOracle(c.Ctx, o.Acct.Acc())
-		dAddr := pre.GetDelegateAddress(s.Chain)
+		dAddr := delegateAddress(pre.GetOracle(), s.Chain)
 		_, ubdErr := s.w.App.StakingKeeper.GetUnbondingDelegation(c.Ctx, dAddr, pre.GetValidator())
 		stillUnbonding := ubdErr == nil
 		_, delErr := s.w.App.StakingKeeper.GetDelegation(c.Ctx, dAddr, pre.GetValidator())
@@ -503,9 +522,19 @@ func (s *Spec) Check(st *explore.State) {
 		if m.Removed[o.Name] {
 			continue
 		}
-		tok, err := k.GetOracleDelegateToken(ctx, orc.GetDelegateAddress(s.Chain), orc.GetValidator())
+		tok, err := k.GetOracleDelegateToken(ctx, delegateAddress(orc.GetOracle(), s.Chain), orc.GetValidator())
 		if err != nil || !tok.Equal(orc.DelegateAmount) {
 			st.Violate("stake-is-delegated-on-behalf", sig("delegation-differs-from-recorded-stake"), fmt.Sprintf("%s: recorded %s, delegated %s (%v)", o.Name, orc.DelegateAmount, tok, err))
+		}
+	}
+	if s.SecondChain != "" {
+		// the same account's stake on the other chain sits in that chain's own delegate address, whatever happens here
+		k2 := scen.Keeper(s.w, s.SecondChain)
+		if orc, ok := k2.GetOracle(ctx, s.os[0].Acct.Acc()); ok && orc.Online {
+			tok, err := k2.GetOracleDelegateToken(ctx, delegateAddress(orc.GetOracle(), s.SecondChain), orc.GetValidator())
+			if err != nil || !tok.Equal(orc.DelegateAmount) {
+				st.Violate("stake-is-delegated-on-behalf", sig("delegation-differs-from-recorded-stake/"+s.SecondChain), fmt.Sprintf("o1 on %s: recorded %s, delegated by its delegate address %s (%v)", s.SecondChain, orc.DelegateAmount, tok, err))
+			}
 		}
 	}
 }
@@ -536,9 +565,9 @@ func (s *Spec) Counters(st *explore.State) []string {
 
 func init() {
 	registry.Register(&registry.Check{
-		ID:    "C13",
-		Level: "model_checking",
-		Rule:  "explicit-state DFS over oracle life-cycle operations (approve, bond with in/out-of-bounds stakes and colliding bridger/external addresses, add-delegate, redelegate, edit-bridger, withdraw-reward, oracle-set confirmations, blocks of 5 s and of 22 days, governance removal, unbond) for 3 oracles / 2 validators with signed window 2; oracles: registry and both indexes are mutual inverses, bond only if approved and inside bounds, recorded stake = transfers net of penalties = delegation, slashing only for an unconfirmed object older than the window created after the oracle's start height, removed oracle can unbond after maturity exactly once for balance - penalty, unbond never strands stake",
+		ID:          "C13",
+		Level:       "model_checking",
+		Rule:        "explicit-state DFS over oracle life-cycle operations (approve, bond with in/out-of-bounds stakes and colliding bridger/external addresses, add-delegate, redelegate, edit-bridger, withdraw-reward, oracle-set confirmations, blocks of 5 s and of 22 days, governance removal, unbond) for 3 oracles / 2 validators with signed window 2; oracles: registry and both indexes are mutual inverses, bond only if approved and inside bounds, recorded stake = transfers net of penalties = delegation, slashing only for an unconfirmed object older than the window created after the oracle's start height, removed oracle can unbond after maturity exactly once for balance - penalty, unbond never strands stake",
 		Assumptions: []string{"objects that must be confirmed are oracle sets (batches / bridge calls share the slashing code path shape and are exercised in C07)", "validator-level slashing is outside this alphabet"},
 		Jobs: func(tier string) []registry.Job {
 			if tier == "thorough" {
@@ -551,7 +580,7 @@ func init() {
 				}
 			}
 			return []registry.Job{
-				{Name: "eth-lifecycle", Spec: &Spec{Chain: "eth"}, Depth: 7, ShardDepth: 2},
+				{Name: "eth-lifecycle", Spec: &Spec{Chain: "eth", SecondChain: "bsc"}, Depth: 7, ShardDepth: 2},
 				{Name: "eth-collide-rewards", Spec: &Spec{Chain: "eth", Collide: true, Rewards: true}, Depth: 5, ShardDepth: 2},
 				{Name: "eth-lifecycle-with-restarts", Spec: &Spec{Chain: "eth", Rewards: true, Restart: true}, Depth: 5, ShardDepth: 2, NoConform: true},
 				{Name: "eth-o2-life-cycle-deep", Spec: &Spec{Chain: "eth", Focus: true}, Depth: 9, ShardDepth: 2},
